@@ -27,6 +27,7 @@ pub struct Ctx {
     pub inconclusive_notes: Vec<String>,
     progress: Option<std::fs::File>,
     pub cur_item: usize,
+    pub slowest: String,
     /// wall-clock watchdog shared with the monitor thread: (start millis of the current case)
     pub case_clock: std::sync::Arc<std::sync::atomic::AtomicU64>,
 }
@@ -81,6 +82,7 @@ impl Ctx {
                     .ok()
             }),
             cur_item: 0,
+            slowest: String::new(),
             case_clock: Default::default(),
         }
     }
@@ -113,7 +115,15 @@ impl Ctx {
         self.note_progress(id, src, cfg, range);
         self.case_clock
             .store(now_ms(), std::sync::atomic::Ordering::SeqCst);
+        let t0 = std::time::Instant::now();
         let out = fmt::run(src, cfg, range, events, false);
+        let ms = t0.elapsed().as_millis() as u64;
+        let e = self.counters.entry("max.eval_ms".to_string()).or_insert(0);
+        if ms > *e {
+            *e = ms;
+            self.slowest = id.to_string();
+        }
+        *self.counters.entry("sum_eval_ms".to_string()).or_insert(0) += ms;
         self.case_clock.store(0, std::sync::atomic::Ordering::SeqCst);
         self.evals += 1;
         if let Ok(o) = &out.result {
@@ -178,6 +188,7 @@ impl Ctx {
             "samples": self.samples,
             "inconclusive": self.inconclusive,
             "inconclusive_notes": self.inconclusive_notes,
+            "slowest": self.slowest,
         })
     }
 }
